@@ -52,9 +52,7 @@ def weak(t, a, b):
             return 'p256 keys differing only in the parity byte'
         return None
     if p == 'address':
-        if a[0] == b[0] and a[1] != b[1] and ('' in (a[1], b[1])):
-            return 'default entrypoint against a named entrypoint'
-        return None
+        return None     # entrypoints compare as strings, the default one as "default" (Entrypoint_repr.default)
     if p == 'pair':
         w = weak(t[1], a[0], b[0])
         if w:
